@@ -246,6 +246,15 @@ class Check:
     def inconclusive_note(self, text):
         self.inconclusive.append(text)
 
+    def tv_note(self, cname, ok, text):
+        """one translator-validation comparison done by the harness itself (encoding value vs float run of the real code)"""
+        d = self.sections.setdefault("translator_validation", {"cases": 0, "values_compared": 0, "mismatches": 0})
+        d["values_compared"] += 1
+        self.validated += 1
+        if not ok:
+            d["mismatches"] += 1
+            self.inconclusive.append(f"translator validation: {cname}: {text}")
+
     # ---- finish ----
     def finish(self, level="other", explanation="", rule="", extra=None):
         wall = time.time() - self.t0
